@@ -482,9 +482,26 @@ fn defective_programs(rep: &Report, nparents: usize, seed: u64) {
         let core = i < 4;
         let mut rng = if core { Rng::new(0xC10D).fork(i as u64) } else { Rng::new(seed).fork(0xC10D_0000 + i as u64) };
         let ms = crate::c14::sample_mutants(&mut rng);
+        // in process, every mutant: if the assembler and the label checks let it through, each emitted line must be
+        // accepted downstream (an out-of-range constant that slips through shows up as a line the interpreter refuses)
+        {
+            let mut agg = FailAgg::new();
+            let mut loc = Local::default();
+            with_fresh_vm(|vm| {
+                for (class, text) in ms.iter() {
+                    let cls = format!("after-defect:{}", class.split(":in-").next().unwrap_or(class));
+                    let v = check_text(&strip_comments(text), &cls, false, core, &mut agg, &mut loc, vm, None);
+                    if v.accepted {
+                        *loc.counters.entry("single-defect programs accepted by assembler and label checks (C14's subject) and run downstream").or_insert(0) += 1;
+                    }
+                }
+            });
+            agg.flush(rep);
+            loc.flush(rep);
+        }
         for (k, (class, text)) in ms.iter().enumerate() {
             // the driver-level classes always, the others sampled
-            let driver = class.starts_with("jump-") || class.starts_with("no-start") || class.starts_with("label-definition") || class.starts_with("call-");
+            let driver = class.starts_with("jump-") || class.starts_with("no-start") || class.starts_with("label-definition") || class.starts_with("call-") || class.starts_with("constant:");
             if !driver && (k + i) % 6 != 0 {
                 continue;
             }
